@@ -14,6 +14,51 @@ let p4 (((a, b), c), d) = Printf.sprintf "%s %s %s %s" (hex a) (hex b) (hex c) (
 
 exception Bad of string
 
+(* independent eigen-solver for the tie of the rotation-based components: cyclic Jacobi on a symmetric 4x4 matrix,
+   returns the normalised eigenvector of the largest eigenvalue (NOT part of the extracted model; its result is
+   only ever used as the argument q of the model's value functions) *)
+let top_eigenvector (s : float array array) : float array =
+  let n = 4 in
+  let a = Array.map Array.copy s in
+  let v = Array.init n (fun i -> Array.init n (fun j -> if i = j then 1.0 else 0.0)) in
+  for _sweep = 1 to 60 do
+    for p = 0 to n - 2 do
+      for q = p + 1 to n - 1 do
+        if Float.abs a.(p).(q) > 1e-300 then begin
+          let theta = (a.(q).(q) -. a.(p).(p)) /. (2.0 *. a.(p).(q)) in
+          let t = (if theta >= 0.0 then 1.0 else -1.0) /. (Float.abs theta +. sqrt (theta *. theta +. 1.0)) in
+          let c = 1.0 /. sqrt (t *. t +. 1.0) in
+          let sn = t *. c in
+          for k = 0 to n - 1 do
+            let akp = a.(k).(p) and akq = a.(k).(q) in
+            a.(k).(p) <- c *. akp -. sn *. akq; a.(k).(q) <- sn *. akp +. c *. akq
+          done;
+          for k = 0 to n - 1 do
+            let apk = a.(p).(k) and aqk = a.(q).(k) in
+            a.(p).(k) <- c *. apk -. sn *. aqk; a.(q).(k) <- sn *. apk +. c *. aqk
+          done;
+          for k = 0 to n - 1 do
+            let vkp = v.(k).(p) and vkq = v.(k).(q) in
+            v.(k).(p) <- c *. vkp -. sn *. vkq; v.(k).(q) <- sn *. vkp +. c *. vkq
+          done
+        end
+      done
+    done
+  done;
+  let best = ref 0 in
+  for i = 1 to n - 1 do if a.(i).(i) > a.(!best).(!best) then best := i done;
+  let e = Array.init n (fun k -> v.(k).(!best)) in
+  let nn = sqrt (Array.fold_left (fun acc x -> acc +. x *. x) 0.0 e) in
+  Array.map (fun x -> x /. nn) e
+
+let optimal_q (pairs : ((float * float) * float) list * ((float * float) * float) list) : (((float * float) * float) * float) =
+  let (p1, p2) = pairs in
+  let l = List.combine p1 p2 in
+  let (((s0, s1), s2), s3) = overlap_matrix fops (corr_matrix fops l) in
+  let row (((a, b), c), d) = [| a; b; c; d |] in
+  let e = top_eigenvector [| row s0; row s1; row s2; row s3 |] in
+  (((e.(0), e.(1)), e.(2)), e.(3))
+
 let eval (w : string array) : float list =
   let p = ref 1 in
   let next () = if !p >= Array.length w then raise (Bad "short") else (let s = w.(!p) in Stdlib.incr p; s) in
@@ -82,6 +127,41 @@ let eval (w : string array) : float list =
     (match g with
      | [a; d] -> [cv_hbond fops r0 (z_of_int en) (z_of_int ed) cell a d]
      | _ -> raise (Bad "hBond needs two distinct atoms"))
+  | "coordNumPL" ->
+    (* pair list built at the first positions, value at the second positions *)
+    let r0 = nf () in let aniso = ni () <> 0 in let r0v = v3 () in
+    let en = ni () in let ed = ni () in let tol = nf () in
+    let g1 = group () in let g2 = group () in
+    let h1 = group () in let h2 = group () in
+    let rv = if aniso then Some r0v else None in
+    let pl = pairlist_build fops r0 rv (z_of_int en) (z_of_int ed) tol cell g1 g2 in
+    [cv_coordnum_pl fops pl r0 rv (z_of_int en) (z_of_int ed) tol cell h1 h2]
+  | "distancePairs" -> let g1 = group () in let g2 = group () in cv_distance_pairs fops pbc cell g1 g2
+  | "rmsd" | "eigenvector" ->
+    let n = ni () in
+    let rf = List.init n (fun _ -> v3 ()) in
+    let vec = if w.(0) = "eigenvector" then List.init n (fun _ -> v3 ()) else [] in
+    let g = group () in
+    let q = optimal_q (List.split (fit_pairs fops rf g)) in
+    [if w.(0) = "rmsd" then cv_rmsd fops q rf g else cv_eigenvector fops q rf vec g]
+  | "orientation" | "orientationAngle" | "orientationProj" | "tilt" | "spinAngle" | "eulerPhi" | "eulerPsi" | "eulerTheta" ->
+    let n = ni () in
+    let rf = List.init n (fun _ -> v3 ()) in
+    let axis = v3 () in
+    let r0 = nf () in let r1 = nf () in let r2 = nf () in let r3 = nf () in
+    let refq = (((r0, r1), r2), r3) in
+    let g = group () in
+    let q = optimal_q (List.split (orient_pairs fops rf g)) in
+    let l4 (((a, b), c), d) = [a; b; c; d] in
+    (match w.(0) with
+     | "orientation" -> l4 (cv_orientation fops refq q)
+     | "orientationAngle" -> [cv_orientation_angle fops pi q]
+     | "orientationProj" -> [cv_orientation_proj fops q]
+     | "tilt" -> [cv_tilt fops pi axis q]
+     | "spinAngle" -> [cv_spin_angle fops pi axis q]
+     | "eulerPhi" -> [cv_euler_phi fops pi q]
+     | "eulerPsi" -> [cv_euler_psi fops pi q]
+     | _ -> [cv_euler_theta fops pi q])
   | s -> raise (Bad ("unknown component " ^ s))
 
 let split_semis (ws : string list) : string list list =
